@@ -195,6 +195,33 @@ func (w *World) UpgradeTM(on, of *Node, trusting time.Duration) error {
 	return on.App.XIBCKeeper.ClientKeeper.UpgradeClient(on.Ctx(), of.Name, cs, hdr.ConsensusState())
 }
 
+// UpgradeTMRevisionRoundTrip: governance upgrades the Tendermint client `on` keeps for `of` into the NEXT revision (as
+// for a counterparty that restarts under a new chain id) and - the restart being called off - back to the real chain at a
+// fresh anchor. Relaying continues afterwards.
+func (w *World) UpgradeTMRevisionRoundTrip(on, of *Node, trusting time.Duration) error {
+	w.Roll(of)
+	h := of.Height()
+	hdr, err := of.SignedHeader(h, clienttypes.NewHeight(of.Revision(), uint64(h)))
+	if err != nil {
+		return err
+	}
+	next, err := clienttypes.SetRevisionNumber(of.ChainID, of.Revision()+1)
+	if err != nil {
+		return err
+	}
+	cs := xibctmtypes.NewClientState(
+		next, xibctmtypes.DefaultTrustLevel, trusting, trusting+7*24*time.Hour, 10*time.Second,
+		clienttypes.NewHeight(of.Revision()+1, 1), commitmenttypes.GetSDKSpecs(),
+		commitmenttypes.MerklePrefix{KeyPrefix: []byte("xibc")}, 0,
+	)
+	w.Roll(on)
+	if err := on.App.XIBCKeeper.ClientKeeper.UpgradeClient(on.Ctx(), of.Name, cs, hdr.ConsensusState()); err != nil {
+		return fmt.Errorf("upgrade into the next revision: %w", err)
+	}
+	w.Roll(on)
+	return w.UpgradeTM(on, of, trusting)
+}
+
 // ClientLatest returns the latest height of the client that `on` keeps for `of`.
 func (w *World) ClientLatest(on, of *Node) clienttypes.Height {
 	cs, ok := on.App.XIBCKeeper.ClientKeeper.GetClientState(on.Ctx(), of.Name)
